@@ -489,21 +489,32 @@ def compareLocalChecksumsAgainstPeers (s : P2P) : P2P :=
       { s with eventQueue := s.eventQueue ++ evs,
                remotes := s.remotes.map fun (a', x) => if a' == a then (a', e') else (a', x) }) s
 
+/-- With desync detection on: report the next due checksum, compare what the peers reported. -/
+def desyncPhase (s : P2P) (now : Nat) : M P2P :=
+  if s.desync.isSome then do
+    let s ← s.checkChecksumSendInterval now
+    pure s.compareLocalChecksumsAgainstPeers
+  else pure s
+
+/-- Rollback mode saves frame 0 before anything else. -/
+def firstSavePhase (s : P2P) : M (P2P × List Request) :=
+  if s.sync.currentFrame == 0 && !(s.maxPrediction == 0) then do
+    let (sync, r) ← s.sync.saveCurrentState
+    pure ({ s with sync }, [r])
+  else pure (s, [])
+
+/-- Lockstep for a prediction window of 0, rollback mode otherwise. -/
+def advanceByMode (s : P2P) (now : Nat) (reqs : List Request) : M (P2P × List Request) :=
+  if s.maxPrediction == 0 then s.advanceLockstepFrame now reqs else s.advanceRollbackFrame now reqs
+
 def advanceFrameCore (s : P2P) (now : Nat) : M (P2P × Except GgrsError (List Request)) := do
   if !s.running then return (s, .error .notSynchronized)
   if !(s.localPlayerHandles.all fun h => s.pendingLocalInputs.any (·.1 == h)) then
     return (s, .error .invalidRequest)
-  let s ← if s.desync.isSome then do
-      let s ← s.checkChecksumSendInterval now
-      pure s.compareLocalChecksumsAgainstPeers
-    else pure s
-  let lockstep := s.maxPrediction == 0
-  let (s, reqs) ← if s.sync.currentFrame == 0 && !lockstep then do
-      let (sync, r) ← s.sync.saveCurrentState
-      pure ({ s with sync }, [r])
-    else pure (s, [])
+  let s ← s.desyncPhase now
+  let (s, reqs) ← s.firstSavePhase
   let s ← s.updatePlayerDisconnects now
-  let (s, reqs) ← if lockstep then s.advanceLockstepFrame now reqs else s.advanceRollbackFrame now reqs
+  let (s, reqs) ← s.advanceByMode now reqs
   let s ← s.checkWaitRecommendation
   return (s, .ok reqs)
 
